@@ -688,7 +688,7 @@ func init() {
 		Rule: "as lru-concurrent, executed under the race detector"})
 	register(&Profile{Prop: "C14", Name: "lru-concurrent-pre", Pre: true, Quick: 30000, Thorough: 120000, Gen: preempt(genC14Ops(true)), Check: checkC14Ops,
 		Rule: "as lru-concurrent; a task can be preempted before every statement of the cache (instrumented copy of rux)"})
-	register(&Profile{Prop: "C14", Name: "router-concurrent-pre", Pre: true, Quick: 3000, Thorough: 40000, Gen: genC14RouterConcTail, Check: checkC14Router,
+	register(&Profile{Prop: "C14", Name: "router-concurrent-pre", Pre: true, Quick: 8000, Thorough: 40000, Gen: genC14RouterConcTail, Check: checkC14Router,
 		Rule: "as router-concurrent; a task can be preempted before every statement of rux (instrumented copy)"})
 	register(&Profile{Prop: "C14", Name: "router", Quick: 24000, Thorough: 400000, Gen: genC14Router, Check: checkC14Router,
 		Rule: "a history is non-trivial when at least one request resolved to a dynamic route on the caching router"})
